@@ -205,6 +205,20 @@ def check(case) -> core.Out:
         return out
     for kind, base, detail in C.compare_attrs(actual, expected):
         out.viol.append((key + f"{kind}:{base}", detail))
+    if not out.viol and C.scribble(msg):
+        # the parsed values were edited in place by their owner: a second parse of
+        # the same frame must still report the prescribed values
+        out.classes = list(out.classes) + ["reparse-after-scribble"]
+        try:
+            again = C.public_attrs(pyubx2.UBXReader.parse(frame, msgmode=mode, parsebitfield=bf))
+            for kind, base, detail in C.compare_attrs(again, expected):
+                out.viol.append((key + f"shared-value:{base}", "after the caller edited a returned list, parsing the "
+                                                               f"same frame again gives: {detail}"))
+            ids = [id(v) for _n, v in again if isinstance(v, list)]
+            if len(ids) != len(set(ids)):
+                out.viol.append((key + "shared-value:aliased", "two attributes of one message are the same list object"))
+        except Exception as err:  # noqa
+            out.viol.append((key + f"shared-value:raises:{type(err).__name__}", repr(err)[:200]))
     try:
         ident = msg.identity
     except Exception as err:  # noqa
